@@ -422,8 +422,14 @@ func c08Large(col *stats.Collector, onlyCodec string, onlyCut int) error {
 			var payload []byte
 			for i := 0; i < n; i++ {
 				str := make([]byte, strLen)
+				// letters that do not repeat in a pattern: the block stays large after compression
+				// (hundreds of KiB), as real data does
+				x := uint64(id)*0x9e3779b97f4a7c15 + 0x1234567
 				for j := range str {
-					str[j] = byte('a' + (int(id)*7+j*13+j/251)%26)
+					x ^= x << 13
+					x ^= x >> 7
+					x ^= x << 17
+					str[j] = byte('a' + x%26)
 				}
 				payload, _ = (&ref.Encoder{}).Encode(payload, schema, ref.Datum{K: "record", Fields: []ref.Datum{ref.Long(id), {K: "string", S: str}}})
 				id++
